@@ -220,6 +220,10 @@ fn convert_pattern(
 
     patt.root.calculate_bounding_boxes();
 
+    // Resolve paint servers of the pattern content right away.
+    // A pattern that is used by more than one element is shared and cannot be modified afterwards.
+    update_paint_servers(&mut patt.root, Transform::default(), None, None, cache);
+
     Some(ServerOrColor::Server(Paint::Pattern(Arc::new(patt))))
 }
 
